@@ -313,7 +313,8 @@ theorem receiver_history (v : Variant) (frames : List (List Byte)) (ms : List Ms
   obtain ⟨k, hk, hkl, _⟩ := (rrun_inv v frames ms hcar ops _ future hfut h0).ex
   exact ⟨k, hk, hkl⟩
 
-/-- **Sender queue to receiver queue (model, end to end, safety)**: messages written through an encode queue
+/-- (Special case of `queue_to_queue_any`, kept for the sender at rest.)
+    **Sender queue to receiver queue (model, end to end, safety)**: messages written through an encode queue
     by any sender history, its wire taken in any pieces and fed in arbitrary pieces to a decode queue with any
     receiver history: what the receiver has delivered is a prefix of what the sender has terminated. -/
 theorem queue_to_queue (v : Variant) (estore : List Byte) (eoff : Nat) (heoff : eoff ≤ estore.length) (eops : List EOp)
@@ -370,9 +371,12 @@ theorem queue_refines (v : Variant) :
     (`drainStep`) obtains one message per round: after `c − got` rounds, where `c` is the number of complete
     frames among the bytes accepted so far, exactly the first `c` messages have been delivered.  `B` = the
     number of bytes accepted so far plus two is enough for any work area the decoder may ask for
-    (`MissingBuffer`, zero pair elimination).  In particular no call answers "need more data" while a complete
-    frame is in the queue: the three stalls (cropped work area, re-alignment of an open block, recovery that
-    did not enlarge the work area) are excluded for every reachable state. -/
+    (`MissingBuffer`, zero pair elimination).  This reader is an idealised policy (storage enlarged before every
+    receive, by an amount that always suffices); `recv_or_grow_delivers` is the variant that enlarges only
+    after a refusal, `recv_never_waits` the per-call fact (a complete frame in the queue is answered with 1 or
+    `MissingBuffer`, never with "need more data") that excludes the three stalls (cropped work area,
+    re-alignment of an open block, recovery that did not enlarge the work area) for every reachable state.
+    That repeated enlargements by 64 bytes (what the library readers do) add up is not proved. -/
 theorem no_stall_model (v : Variant) (frames : List (List Byte)) (ms : List Msg) (hcar : Carries v frames ms)
     (store : List Byte) (off base : Nat) (hoff : off ≤ store.length) (ops : List DOp) (future : List Byte) :
     let s := ops.foldl rstep { q := { ring := { store := store, len := 0, off := off }, codec := some v, base := base } }
